@@ -9,8 +9,9 @@
 (*   write n               the client wrote n bytes (tap on the client end;*)
 (*                         an action only after a failure: see below)      *)
 (*   req api v form        the broker received a request / raw token       *)
-(*   srv what round        the broker's verdict, recorded before the bytes *)
-(*                         carrying it were written                        *)
+(*   srv what round code   the broker's verdict, recorded before the bytes *)
+(*                         carrying it were written (code: the error code  *)
+(*                         of a rejected handshake / failed step)          *)
 (*   result res            the API call that opened this connection        *)
 (*                         returned (only for connections with attr)       *)
 (*   closed                the client closed its end (fakenet OnClose)     *)
@@ -39,7 +40,7 @@ M == INSTANCE Sasl
 
 tvars == <<cfg, sent, hv, authAt, failAt, closed, dialResult, fin, cst, round, c2s, s2c, srvClosed, uses, l, tid>>
 
-NoCfg == [mech |-> "PLAIN", hvmax |-> 0, creds |-> "right", fkind |-> "none", fstep |-> 0, attr |-> FALSE]
+NoCfg == [mech |-> "PLAIN", hsadv |-> "v0", creds |-> "right", fkind |-> "none", fstep |-> 0, fcode |-> 0, attr |-> FALSE]
 
 TInit ==
   /\ cfg = [c \in Conns |-> NoCfg]
@@ -50,7 +51,7 @@ TInit ==
   /\ uses = [c \in Conns |-> 0]
   /\ l = 1 /\ tid = ""
 
-CfgOf(e) == [mech |-> e.mech, hvmax |-> e.hvmax, creds |-> e.creds, fkind |-> e.fkind, fstep |-> e.fstep, attr |-> e.attr]
+CfgOf(e) == [mech |-> e.mech, hsadv |-> e.hsadv, creds |-> e.creds, fkind |-> e.fkind, fstep |-> e.fstep, fcode |-> e.fcode, attr |-> e.attr]
 
 Reset(e) ==
   /\ cfg' = [c \in Conns |-> CfgOf(e)]
@@ -83,9 +84,15 @@ ReplyOf(what) ==
     [] OTHER              -> "?"
 
 SrvStep(e) ==
-  /\ \/ e.what = "versions" /\ M!SrvVersions(1)
-     \/ e.what \in {"hsok", "hsrej", "hsgarbled"} /\ M!SrvHandshake(1)
-     \/ e.what \in {"authcont", "authok", "authfail", "tamper"} /\ e.round = round[1] /\ M!SrvAuth(1)
+  /\ \/ e.what = "versions" /\ e.hsadv = cfg[1].hsadv /\ M!SrvVersions(1)
+     \/ /\ e.what \in {"hsok", "hsrej", "hsgarbled"}
+        /\ M!SrvHandshake(1)
+        /\ (e.what = "hsrej") => (e.code = M!HsCode(1))
+     \/ /\ e.what \in {"authcont", "authok", "authfail", "tamper"}
+        /\ e.round = round[1]
+        /\ M!SrvAuth(1)
+        \* a framed failure carries the model's code (after a v0 handshake no code travels)
+        /\ (e.what = "authfail" /\ hv[1] = 1) => (e.code = M!AuthCode(1, round[1]))
      \/ e.what = "srvclose" /\ ((e.round = 0 /\ M!SrvHandshake(1)) \/ (e.round > 0 /\ e.round = round[1] /\ M!SrvAuth(1)))
      \/ e.what = "preauthclose" /\ M!SrvPreauthClose(1)
   /\ s2c'[1] = ReplyOf(e.what)
